@@ -71,10 +71,12 @@ var txKindNames = [txKinds]string{
 // genTx hand-builds one transaction of the given kind. Hashes are random (the
 // migrations never verify them) and unique with overwhelming probability.
 func genTx(rng *rand.Rand, kind int) core.Transaction {
-	h := rfelt(rng)
-	for h.IsZero() || h.Bits()[3] == 0 && h.Bits()[2] == 0 && h.Bits()[1] == 0 { // avoid the small values
-		h = rfelt(rng)
+	var hb [31]byte
+	for i := range hb {
+		hb[i] = byte(rng.UintN(256))
 	}
+	hb[0] |= 1 // never one of the small values
+	h := new(felt.Felt).SetBytes(hb[:])
 	da := func() core.DataAvailabilityMode { return core.DataAvailabilityMode(rng.IntN(2)) }
 	switch kind {
 	case 0:
